@@ -408,6 +408,11 @@ func (h *RealtimeHandler) HandleEntityUpdatePose(ctx context.Context, msg hwebso
 		return nil
 	}
 
+	if update.Pose == nil {
+		// An update that carries no pose has nothing to apply or relay.
+		return nil
+	}
+
 	entity.SetPose(models.Pose{
 		PX: update.Pose.Px,
 		PY: update.Pose.Py,
